@@ -50,6 +50,11 @@ def attach(build=False):
     if not build and not is_built():
         # leave the extension unreachable: without ninja quanto warns and falls back to the python kernel
         return False
+    if build:
+        # ninja lives next to the interpreter; torch.utils.cpp_extension needs it on PATH (only the explicit build step has it)
+        bindir = os.path.dirname(sys.executable)
+        if bindir not in os.environ.get("PATH", "").split(os.pathsep):
+            os.environ["PATH"] = bindir + os.pathsep + os.environ.get("PATH", "")
     os.makedirs(d, exist_ok=True)
     ext.build_directory = d
     ext._lib = None
